@@ -1,5 +1,5 @@
 (* C09: the accumulator survives overflow and garbage and resyncs at the next sentinel. *)
-From PV Require Import Base MachineInt DataModel De Cobs CobsRef DeFlavors Accumulator CobsEntry AccFacts.
+From PV Require Import Base MachineInt DataModel De Cobs CobsRef DeFlavors Accumulator CobsEntry AccFacts AccInterp AccAstFacts.
 Open Scope N_scope.
 
 (* whatever is fed, in whatever state: never a panic, never an index outside the buffer
@@ -44,8 +44,16 @@ Example C09_example :
       [OverFull [5]; Consumed; DeserError [2; 7; 0]; Success (VInt U8 7) []]).
 Proof. vm_compute. reflexivity. Qed.
 
+(* the accumulator step of these theorems is what the body of CobsAccumulator::feed_ref computes:
+   the body is re-read from accumulator.rs on every run as a statement tree (conditions,
+   assignments to idx, extend_unchecked, the decode, every return) and interpreted *)
+Theorem C09_step_is_the_source : forall (t : ty) (st : acc_st) (input : list byte),
+  feed_ast t st input = feed t st input.
+Proof. exact feed_ast_is_feed. Qed.
+
 Print Assumptions C09_feed_total.
 Print Assumptions C09_reset_after_zero.
 Print Assumptions C09_overflow_reported.
 Print Assumptions C09_loop_terminates.
 Print Assumptions C09_capacity_zero_stalls.
+Print Assumptions C09_step_is_the_source.
